@@ -2,10 +2,10 @@
 
 Values.tla (TLC) enumerates boundary encodings of every value type and boundary OID names; each is carried in
 replies at every position, through get / get_many / getnext / getbulk, over v1 / v2c / v3 (plain, auth, DES,
-AES); seeded random values over the full ranges are added.  TraceSession.tla decodes the logged reply octets
+AES); seeded random values over the full ranges are added; a sample goes through the public sync / async API.  TraceSession.tla decodes the logged reply octets
 and requires result = PyValue(Denote(varbind)) and key = OidToText(name)."""
 import json, random, struct
-from vlib import env, tlc, trace, corpus, rawdrv, agent as ag, refcodec as rc, scripts, sesscheck
+from vlib import env, tlc, trace, corpus, rawdrv, agent as ag, refcodec as rc, scripts, sesscheck, apiscripts
 from vlib.report import Check
 from vlib.env import ToolError, SEED
 
@@ -196,8 +196,28 @@ def run(tier):
         a, b = one_case(rec, std["v2c"], agent, "get_many", lay, k)
         runs.append((a, b, dict(cfg="v2c", op="get_many", vt="list%d" % n, tlv=[], cls=-1)))
         chk.case(("v2c", "list", n))
+    # a sample of the corpus through the PUBLIC API (sync / async SnmpSession.get and get_many): the Python layer hands the value on unchanged
+    nraw = len(runs)
+    items = []
+    for ci, cn in enumerate(["v2c", "v3-sha1-aes"]):
+        for vi, v in enumerate(cvals):
+            if (vi + ci * 3 + SEED) % (11 if not thorough else 2):
+                continue
+            val = ("raw", bytes(v["tlv"]))
+            for oi, op in enumerate(("get", "get_many")):
+                if not thorough and (vi // 11 + oi) % 2:
+                    continue
+                client = ["sync", "async"][(vi // 11 + oi + ci + vi) % 2]
+                lay = layouts(op, val, vi, names)[0]
+                oids = [BASE_TXT + ".1.0"] if op == "get" else [BASE_TXT + ".1.0", BASE_TXT + ".2.0"]
+                info = dict(cfg=cn, op=op, vt=v["vt"], tlv=v["tlv"], cls=v["cls"], api=client, lay_k=vi)
+                items.append((client, std[cn], op, oids, (lambda lay: (lambda cfg, req: [agent.reply(cfg, req, lay)]))(lay), info,
+                              rawdrv.real_entries([rc.enc_value(x) for _, x in lay])))
+    runs += apiscripts.exchanges(rec, items)
+    for a, b, info in runs[nraw:]:
+        chk.case(("api", info["api"], info["cfg"], info["op"], bytes(info["tlv"]).hex()), nontrivial=info["cls"] == 0)
     rec.close()
-    print("  %d cases, %d events" % (len(runs), rec.n), flush=True)
+    print("  %d cases (%d through the sync/async API), %d events" % (len(runs), len(runs) - nraw, rec.n), flush=True)
     v = trace.validate_parallel("TraceSession.tla", "TraceSession.cfg", rec.events, [(a, b) for a, b, _ in runs], k=12, name="c02")
     for i, r in enumerate(v["results"]):
         chk.add_tlc(r, "TraceSession(c02)#%d" % i)
@@ -230,7 +250,14 @@ def replay(path):
     info = r["info"]
     inj = [e for e in r["events"] if e["ev"] == "Inject"]
     val = ("raw", bytes(info["tlv"]))
-    a, b = one_case(rec, std[info["cfg"]], ag.Agent(), info["op"], layouts(info["op"], val, 1, [])[0], 1)
+    if "api" in info:
+        lay = layouts(info["op"], val, info.get("lay_k", 1), [])[0]
+        agent = ag.Agent()
+        oids = [BASE_TXT + ".1.0"] if info["op"] == "get" else [BASE_TXT + ".1.0", BASE_TXT + ".2.0"]
+        apiscripts.exchanges(rec, [(info["api"], std[info["cfg"]], info["op"], oids, lambda cfg, req: [agent.reply(cfg, req, lay)], info,
+                                    rawdrv.real_entries([rc.enc_value(x) for _, x in lay]))])
+    else:
+        a, b = one_case(rec, std[info["cfg"]], ag.Agent(), info["op"], layouts(info["op"], val, 1, [])[0], 1)
     v = trace.validate("TraceSession.tla", "TraceSession.cfg", rec.close())
     if v["accepted"] and not v["fails"]:
         print("replay: accepted")
